@@ -141,7 +141,14 @@ async fn run_tr(w: &mut CaseWriter, probes: &[u64], toks: &[String]) {
         if sent.is_none() {
             fails.push(("peer-cannot-serialise-its-state".into(), format!("fetch after token {}", i)));
         }
-        match client.get_state(KS).await {
+        // the transport may deliver the reply in one piece or in many (as HTTP/2 does for anything
+        // beyond a frame): the choice rotates with the history, so a replay takes the same path
+        let piece = [0usize, 1000, 0, 16 << 10, 37, 0][(all.len() + i) % 6];
+        datacake_rpc::verif::set_body_chunk_size(piece);
+        w.stats.hit(if piece == 0 { "reply_in_one_piece" } else { "reply_in_pieces" });
+        let fetched = client.get_state(KS).await;
+        datacake_rpc::verif::set_body_chunk_size(0);
+        match fetched {
             Ok((_, got)) => {
                 outs.push(format!("ok {}", show_set(&got, probes)));
                 w.stats.hit("transfer_ok");
